@@ -1,5 +1,157 @@
 import SpVerif.Model.Srv1
 import SpVerif.Props.C03
+/-!
+# C15 — Request IDs and service-1 verification reports identify the telecommand exactly
+-/
 namespace SpVerif.Props.C15
-theorem C15_placeholder : True := trivial
+open SpVerif SpVerif.SpacePacket SpVerif.PusTm SpVerif.Srv1
+
+/-! ## Request ID -/
+
+def WFReq (r : ReqId) : Prop :=
+  r.version < 8 ∧ r.pid.ptype < 2 ∧ r.pid.shf < 2 ∧ r.pid.apid < 2048 ∧ r.psc.flags < 4 ∧ r.psc.count < 16384
+
+/-- the four octets of a request id = the first four octets of the space packet header -/
+def Spec.reqOctets (r : ReqId) : Bytes :=
+  [u8 (r.version * 32 + r.pid.ptype * 16 + r.pid.shf * 8 + r.pid.apid / 256), u8 (r.pid.apid % 256),
+   u8 (r.psc.flags * 64 + r.psc.count / 256), u8 (r.psc.count % 256)]
+
+private theorem ar0 (v t s a : Nat) (ht : t < 2) (hs : s < 2) (ha : a < 2048) :
+    (v * 8192 + (t * 4096 + s * 2048 + a)) / 256 = v * 32 + t * 16 + s * 8 + a / 256 := by omega
+private theorem ar1 (v t s a : Nat) : (v * 8192 + (t * 4096 + s * 2048 + a)) % 256 = a % 256 := by omega
+private theorem ar2 (f c : Nat) (hc : c < 16384) : (f * 16384 + c) / 256 = f * 64 + c / 256 := by omega
+private theorem ar3 (f c : Nat) : (f * 16384 + c) % 256 = c % 256 := by omega
+
+private theorem beNat_four (a b c d : UInt8) :
+    beNat [a, b, c, d] = ((a.toNat * 256 + b.toNat) * 256 + c.toNat) * 256 + d.toNat := by
+  simp [beNat]
+
+private theorem dr_g (x y : Nat) (hx : x < 256) (hy : y < 256) :
+    ¬ 16383 < (x * 256 + y) / 65536 * 65536 + (x * 256 + y) % 16384 := by omega
+private theorem dr1 (x y : Nat) (hx : x < 256) (hy : y < 256) : (x * 256 + y) / 8192 % 8 = x / 32 := by omega
+private theorem dr2 (x y : Nat) (hy : y < 256) : (x * 256 + y) / 4096 % 2 = x / 16 % 2 := by omega
+private theorem dr3 (x y : Nat) (hy : y < 256) : (x * 256 + y) / 2048 % 2 = x / 8 % 2 := by omega
+private theorem dr4 (x y : Nat) (hy : y < 256) : (x * 256 + y) % 2048 = x % 8 * 256 + y := by omega
+private theorem dr5 (x y : Nat) (hx : x < 256) (hy : y < 256) : (x * 256 + y) / 16384 % 4 = x / 64 := by omega
+private theorem dr6 (x y : Nat) (hx : x < 256) (hy : y < 256) :
+    (x * 256 + y) / 65536 * 65536 + (x * 256 + y) % 16384 = x % 64 * 256 + y := by omega
+private theorem er0 (x y : Nat) (hx : x < 256) (hy : y < 256) :
+    x / 32 * 32 + x / 16 % 2 * 16 + x / 8 % 2 * 8 + (x % 8 * 256 + y) / 256 = x := by omega
+private theorem er1 (x y : Nat) (hy : y < 256) : (x % 8 * 256 + y) % 256 = y := by omega
+private theorem er2 (x y : Nat) (hx : x < 256) (hy : y < 256) : x / 64 * 64 + (x % 64 * 256 + y) / 256 = x := by omega
+private theorem er3 (x y : Nat) (hy : y < 256) : (x % 64 * 256 + y) % 256 = y := by omega
+
+theorem req_pack (r : ReqId) (wf : WFReq r) : r.pack = .ok (Spec.reqOctets r) := by
+  obtain ⟨hv, ht, hs, ha, hf, hc⟩ := wf
+  unfold ReqId.pack
+  rw [packBE2_ok (show r.word0 < 65536 by simp only [ReqId.word0, PacketId.raw, pidRaw]; omega),
+    packBE2_ok (show r.psc.raw < 65536 by simp only [Psc.raw, pscRaw]; omega)]
+  simp [bind, Except.bind, pure, Except.pure, Spec.reqOctets, ReqId.word0, PacketId.raw, Psc.raw, pidRaw, pscRaw,
+    ar0 _ _ _ _ ht hs ha, ar1, ar2 _ _ hc, ar3]
+
+/-- **the request id of a telecommand is exactly the first four octets of its space packet header** -/
+theorem C15_reqid_is_header (h : Sph) (wf : C01.WF h) :
+    (ReqId.fromSph h).pack = .ok ((C01.Spec.octets h).take 4) := by
+  obtain ⟨hv, ht, hs, ha, hf, hc, _⟩ := wf
+  rw [req_pack _ ⟨hv, ht, hs, ha, hf, hc⟩]
+  simp [Spec.reqOctets, ReqId.fromSph, C01.Spec.octets]
+
+private theorem u32_of_octets (v t s a f c : Nat) (hv : v < 8) (ht : t < 2) (hs : s < 2) (ha : a < 2048)
+    (hf : f < 4) (hc : c < 16384) :
+    (((v * 32 + t * 16 + s * 8 + a / 256) % 256 * 256 + a % 256 % 256) * 256 + (f * 64 + c / 256) % 256) * 256
+      + c % 256 % 256 = (v * 8192 + (t * 4096 + s * 2048 + a)) * 65536 + (f * 16384 + c) := by omega
+
+/-- the 32-bit integer form is the big-endian value of the packed form, and fits 32 bits -/
+theorem C15_reqid_u32 (r : ReqId) (wf : WFReq r) :
+    beNat (Spec.reqOctets r) = r.asU32 ∧ r.asU32 < 2 ^ 32 := by
+  obtain ⟨hv, ht, hs, ha, hf, hc⟩ := wf
+  constructor
+  · simp only [Spec.reqOctets, beNat_four, u8_toNat, ReqId.asU32, ReqId.word0, PacketId.raw, Psc.raw, pidRaw, pscRaw]
+    exact u32_of_octets r.version r.pid.ptype r.pid.shf r.pid.apid r.psc.flags r.psc.count hv ht hs ha hf hc
+  · simp only [ReqId.asU32, ReqId.word0, PacketId.raw, Psc.raw, pidRaw, pscRaw]; omega
+
+private theorem req_unpack_eq (d : Bytes) (h4 : 4 ≤ d.length) :
+    ReqId.unpack d = .ok ⟨d[0].toNat / 32, ⟨d[0].toNat / 16 % 2, d[0].toNat / 8 % 2, d[0].toNat % 8 * 256 + d[1].toNat⟩,
+      ⟨d[2].toNat / 64, d[2].toNat % 64 * 256 + d[3].toNat⟩⟩ := by
+  have hl : ¬ d.length < 4 := by omega
+  have b0 := toNat_lt d[0]
+  have b1 := toNat_lt d[1]
+  have b2 := toNat_lt d[2]
+  have b3 := toNat_lt d[3]
+  have b1' := toNat_lt d[0+1]
+  have b3' := toNat_lt d[2+1]
+  unfold ReqId.unpack
+  simp only [hl, ↓reduceIte, bind, Except.bind, pure, Except.pure,
+    unpackBE2_slice d 0 (by omega), unpackBE2_slice d 2 (by omega), Psc.fromRaw, Psc.new_nat]
+  simp only [dr_g _ _ b2 b3', ↓reduceIte, PacketId.fromRaw, dr1 _ _ b0 b1', dr2 _ _ b1', dr3 _ _ b1', dr4 _ _ b1',
+    dr5 _ _ b2 b3', dr6 _ _ b2 b3']
+  have g2 : ¬ 16383 < d[2].toNat % 64 * 256 + d[2+1].toNat := by omega
+  simp [g2]
+
+/-- **decode ∘ encode = id** for request ids, with any octets following -/
+theorem C15_reqid_roundtrip (r : ReqId) (wf : WFReq r) (rest : Bytes) :
+    ReqId.unpack (Spec.reqOctets r ++ rest) = .ok r := by
+  obtain ⟨hv, ht, hs, ha, hf, hc⟩ := wf
+  rw [req_unpack_eq _ (by simp [Spec.reqOctets])]
+  simp only [Spec.reqOctets, List.cons_append, List.getElem_cons_zero, List.getElem_cons_succ, u8_toNat]
+  cases r with
+  | mk v p q =>
+    cases p with
+    | mk t s a =>
+      cases q with
+      | mk f c =>
+        simp only at hv ht hs ha hf hc ⊢
+        congr 1
+        simp only [ReqId.mk.injEq, PacketId.mk.injEq, Psc.mk.injEq]
+        refine ⟨?_, ⟨?_, ?_, ?_⟩, ?_, ?_⟩ <;> omega
+
+/-- **encode ∘ decode = b[:4]** for every octet string of at least four octets: together with the
+    round trip, a bijection between in-range request ids and all 2^32 values -/
+theorem C15_reqid_decode_encode (b : Bytes) (h4 : 4 ≤ b.length) :
+    ∃ r, ReqId.unpack b = .ok r ∧ WFReq r ∧ r.pack = .ok (b.take 4) ∧ r.asU32 = beNat (b.take 4) := by
+  have b0 := toNat_lt b[0]
+  have b1 := toNat_lt b[1]
+  have b2 := toNat_lt b[2]
+  have b3 := toNat_lt b[3]
+  have wf : WFReq ⟨b[0].toNat / 32, ⟨b[0].toNat / 16 % 2, b[0].toNat / 8 % 2, b[0].toNat % 8 * 256 + b[1].toNat⟩,
+      ⟨b[2].toNat / 64, b[2].toNat % 64 * 256 + b[3].toNat⟩⟩ := by
+    unfold WFReq; refine ⟨?_, ?_, ?_, ?_, ?_, ?_⟩ <;> simp only <;> omega
+  have hoct : Spec.reqOctets ⟨b[0].toNat / 32, ⟨b[0].toNat / 16 % 2, b[0].toNat / 8 % 2, b[0].toNat % 8 * 256 + b[1].toNat⟩,
+      ⟨b[2].toNat / 64, b[2].toNat % 64 * 256 + b[3].toNat⟩⟩ = b.take 4 := by
+    simp only [Spec.reqOctets, er0 _ _ b0 b1, er1 _ _ b1, er2 _ _ b2 b3, er3 _ _ b3, u8_toNat_self]
+    match b, h4 with
+    | x0 :: x1 :: x2 :: x3 :: r, _ => simp
+  refine ⟨_, req_unpack_eq b h4, wf, ?_, ?_⟩
+  · rw [req_pack _ wf, hoct]
+  · rw [← (C15_reqid_u32 _ wf).1, hoct]
+
+private theorem u32_inj (v t s a f c v' t' s' a' f' c' : Nat)
+    (ht : t < 2) (hs : s < 2) (ha : a < 2048) (hf : f < 4) (hc : c < 16384)
+    (ht' : t' < 2) (hs' : s' < 2) (ha' : a' < 2048) (hf' : f' < 4) (hc' : c' < 16384)
+    (h : (v * 8192 + (t * 4096 + s * 2048 + a)) * 65536 + (f * 16384 + c)
+       = (v' * 8192 + (t' * 4096 + s' * 2048 + a')) * 65536 + (f' * 16384 + c')) :
+    v = v' ∧ t = t' ∧ s = s' ∧ a = a' ∧ f = f' ∧ c = c' := by omega
+
+/-- **two request ids are equal (`==`, and hash equal) iff their 32 bits are equal**: `==` is
+    defined through `as_u32()` (and so is `__hash__`), and on in-range ids equal 32-bit values mean
+    equal fields -/
+theorem C15_reqid_eq (a b : ReqId) (wa : WFReq a) (wb : WFReq b) :
+    (a.beq b = true ↔ a.asU32 = b.asU32) ∧ (a.asU32 = b.asU32 ↔ a = b) := by
+  refine ⟨by simp [ReqId.beq], ⟨fun h => ?_, fun h => by rw [h]⟩⟩
+  obtain ⟨hv, ht, hs, ha, hf, hc⟩ := wa
+  obtain ⟨hv', ht', hs', ha', hf', hc'⟩ := wb
+  simp only [ReqId.asU32, ReqId.word0, PacketId.raw, Psc.raw, pidRaw, pscRaw] at h
+  have := u32_inj _ _ _ _ _ _ _ _ _ _ _ _ ht hs ha hf hc ht' hs' ha' hf' hc' h
+  cases a with
+  | mk v p q => cases p; cases q; cases b with
+    | mk v' p' q' => cases p'; cases q'; simp_all
+
+/-- fewer than four octets are refused (ValueError); the decoder never fails otherwise -/
+theorem C15_reqid_documented (d : Bytes) : Documented (ReqId.unpack d) := by
+  by_cases h : d.length < 4
+  · simp [ReqId.unpack, h, throw, throwThe, MonadExceptOf.throw, bind, Except.bind]; exact Documented.err rfl
+  · rw [req_unpack_eq d (by omega)]; exact Documented.ok _
+
+example : WFReq ⟨5, ⟨1, 1, 0x7AB⟩, ⟨2, 0x2BCD⟩⟩ := by unfold WFReq; decide
+
 end SpVerif.Props.C15
